@@ -69,24 +69,39 @@ def enabled_candidates():
 
 # ------------------------------------------------------------------------------------------------ topologies
 
-def gen_system(rng, ligand=False, min_res=1, two_atoms=None, shared_resid=0.0):
-    """types: name -> [(resid, resname, [atomnames])]; mols: [(name, count)]"""
+def gen_system(rng, ligand=False, min_res=1, two_atoms=None, shared_resid=0.0, restart=0.0):
+    """types: name -> [(resid, resname, [atomnames])]; mols: [(name, count)].
+    Resids need not be unique inside a molecule: `shared_resid` numbers a residue like its neighbour (a co-factor),
+    `restart` lets the numbering start again for a second block (block copolymer PS 1-3, PEO 1-3); residues that
+    share a resid always differ in name (the pair (resid, resname) identifies a residue)."""
     names = rng.sample(["A", "B", "PC", "D"], rng.randint(2, 3))
     types = {}
     for name in names:
         nres = rng.randint(min_res, 5)
         residues = []
         first = rng.choice([1, 1, 1, 2, 5])
+        start = first
+        restart_at = rng.randint(1, nres - 1) if nres >= 2 and rng.random() < restart else None
         for r in range(nres):
             natoms = rng.randint(1, 3) if two_atoms is None else two_atoms
             atoms = ATOMNAMES[:natoms]
             if natoms == 3 and rng.random() < 0.2:
                 atoms = ["X", "Y", "X"]            # a repeated atom name inside one residue
+            if r == restart_at:
+                first = start - r                  # the second block is numbered from `start` again
             resid, resname = first + r, rng.choice(RESNAMES)
             if residues and rng.random() < shared_resid and residues[-1][1] != resname:
                 # a co-factor numbered like its neighbour: two residues with one resid, told apart by name
                 resid = residues[-1][0]
                 first -= 1
+            taken = [q[1] for q in residues if q[0] == resid]
+            if resname in taken:
+                free = [n for n in RESNAMES if n not in taken]
+                if free:
+                    resname = rng.choice(free)
+                else:                              # no name left for this resid: number on
+                    first = max(q[0] for q in residues) + 1 - r
+                    resid = first + r
             residues.append((resid, resname, atoms))
         types[name] = residues
     if ligand:
@@ -363,7 +378,8 @@ def build_exec(work, system, blocks, text):
 
 
 def build_case(work, rng, candidates):
-    system = gen_system(rng, ligand=rng.random() < 0.3, min_res=rng.choice([1, 2, 3]))
+    system = gen_system(rng, ligand=rng.random() < 0.3, min_res=rng.choice([1, 2, 3]),
+                        shared_resid=rng.choice([0.0, 0.0, 0.4]), restart=rng.choice([0.0, 0.5, 0.5]))
     # the molecule list is needed to draw sensible blocks: read it off the system description
     mols = []
     for name, count in system["mols"]:
@@ -549,7 +565,8 @@ def start_exec(work, system, texts):
 
 
 def start_case(work, rng, candidates):
-    system = gen_system(rng, ligand=rng.random() < 0.3)
+    system = gen_system(rng, ligand=rng.random() < 0.3, shared_resid=rng.choice([0.0, 0.0, 0.4]),
+                        restart=rng.choice([0.0, 0.0, 0.5]))
     texts = [render_py(s) for s in gen_start_specs(rng, system_mols(system), candidates)]
     return start_exec(work, system, texts)
 
@@ -664,7 +681,8 @@ def split_exec(work, system, strings, only=None):
 
 
 def split_case(work, rng):
-    system = gen_system(rng, ligand=rng.random() < 0.2, shared_resid=rng.choice([0.0, 0.0, 0.4]))
+    system = gen_system(rng, ligand=rng.random() < 0.2, shared_resid=rng.choice([0.0, 0.0, 0.4]),
+                        restart=rng.choice([0.0, 0.0, 0.4]))
     strings, _ = gen_split(rng, system)
     return split_exec(work, system, strings)
 
@@ -848,11 +866,49 @@ def e2e_case(ctx, work, rng, mode):
             spec = "A#0-%s#%d" % (target[1], target[0])
         kwargs["ligands"] = [[spec, "L"]]
         kwargs["step_fudge"] = rng.choice([1.0, 0.75])
+    elif mode == "combo":
+        # several option kinds in ONE run: a build file with residue-level directives together with -split / -lig /
+        # -start; every directive and specification is written in terms of the residues as they are when it is
+        # applied (after the split: new names, any resid)
+        parts = rng.choice([("build", "split"), ("build", "split"), ("build", "lig"), ("build", "start"),
+                            ("split", "start"), ("build", "split", "start")])
+        names_after = sorted(set(r[1] for r in host_res))
+        if "split" in parts:
+            resname = rng.choice(sorted(set(r[1] for r in host_res)))
+            pattern = rng.choice(["%s:NX-X:NY-Y", "%s:NX-X", "%s:NY-Y"])
+            kwargs["split"] = [pattern % resname]
+            names_after = sorted(set(n for n in names_after if n != resname)
+                                 | set(p.split("-")[0] for p in pattern.split(":")[1:])
+                                 | (set() if pattern.count(":") == 2 else {resname}))
+        if "lig" in parts:
+            target = rng.choice(host_res)
+            kwargs["ligands"] = [["A#0-%s#%d" % (target[1], target[0]), "L"]]
+        if "start" in parts:
+            idx = rng.randrange(nA)
+            if "split" in parts:
+                kwargs["start"] = ["A#%d-%s" % (idx, rng.choice(names_after))]
+            else:
+                target = rng.choice(host_res)
+                kwargs["start"] = ["A#%d-%s#%d" % (idx, target[1], target[0])]
+        if "build" in parts:
+            lines = []
+            lo = rng.randrange(nA)
+            hi = rng.randint(lo + 1, nA)
+            lines += ["[ molecule ]", "A %d %d" % (lo, hi)]
+            for _ in range(rng.randint(1, 2)):
+                geom = rng.choice(["sphere", "cylinder", "rectangle"])
+                params = {"sphere": "3.9", "cylinder": "3.9 3.9", "rectangle": "3.9 3.9 3.9"}[geom]
+                rlo = rng.choice([0, 0, 1, 2])
+                lines += ["[ %s ]" % geom, "%s %d %d in 4.0 4.0 4.0 %s" % (rng.choice(names_after + ["RL"]), rlo,
+                                                                         rlo + rng.choice([2, 9, 9]), params)]
+            if rng.random() < 0.5:
+                lines += ["[ molecule ]", "L %d %d" % (nA, nA + rng.randint(1, nL)), "[ sphere ]", "RL 1 2 in 4.0 4.0 4.0 3.9"]
+            kwargs["build_lines"] = lines
     else:
         target = rng.choice(host_res)
         idx = rng.randrange(nA)
         kwargs["start"] = ["A#%d-%s#%d" % (idx, target[1], target[0])]
-    e2e_exec(ctx, work, mode, system, kwargs, seed)
+    return e2e_exec(ctx, work, mode, system, kwargs, seed)
 
 
 def e2e_exec(ctx, work, mode, system, kwargs, seed):
@@ -871,6 +927,12 @@ def e2e_exec(ctx, work, mode, system, kwargs, seed):
     kwargs = dict(kwargs)
     if "ligands" in kwargs:
         kwargs["ligands"] = [tuple(p) for p in kwargs["ligands"]]
+    build_lines = kwargs.pop("build_lines", None)
+    if build_lines is not None:
+        bld = path[:-4] + ".bld"
+        with open(bld, "w") as handle:
+            handle.write("\n".join(build_lines) + "\n")
+        kwargs["build"] = [Path(bld)]
     saved = []
 
     def patch(obj, attr, new):
@@ -892,6 +954,13 @@ def e2e_exec(ctx, work, mode, system, kwargs, seed):
     def build_wrapped(self, molecules):
         captured["engine_owner"] = self
         captured["start_dict"] = dict(self.start_dict)
+        # the residues as they are when coordinates are generated, and the build-file tags they carry
+        topo_now = captured["topology"]
+        captured["mols_at_build"] = mols_json(topo_now)
+        captured["tags_at_build"] = [
+            [i, int(key), [_canon_params(p) for p in mol.nodes[key].get("restraints", [])],
+             [[[_f(x) for x in p[0]], _f(p[1])] for p in mol.nodes[key].get("rw_options", [])]]
+            for i, mol in enumerate(topo_now.molecules) for key in mol.nodes if "ligated" not in mol.nodes[key]]
         return orig_build(self, molecules)
 
     def split_wrapped(self):
@@ -928,8 +997,10 @@ def e2e_exec(ctx, work, mode, system, kwargs, seed):
             setattr(obj, attr, old)
         from vermouth.file_writer import DeferredFileWriter
         DeferredFileWriter().close()
-    replay = dict(stream="e2e-" + mode, system=system, seed=seed,
-                  kwargs={k: ([list(p) for p in v] if k == "ligands" else v) for k, v in kwargs.items()})
+    replay_kwargs = {k: ([list(p) for p in v] if k == "ligands" else v) for k, v in kwargs.items() if k != "build"}
+    if build_lines is not None:
+        replay_kwargs["build_lines"] = build_lines
+    replay = dict(stream="e2e-" + mode, system=system, seed=seed, kwargs=replay_kwargs)
     shape = "gen_coords-%s-fails" % mode
     if timed_out:
         ctx.tally(e2e_timeout=True)          # counted, not judged
@@ -943,7 +1014,14 @@ def e2e_exec(ctx, work, mode, system, kwargs, seed):
     natoms = sum(len(m.molecule.nodes) for m in topo.molecules)
     if len(atoms) != natoms or not all(math.isfinite(x) for a in atoms for x in a["xyz"]):
         ctx.oracle_fail(shape, "gen_coords %s wrote %d atoms for %d" % (kwargs, len(atoms), natoms), replay)
-    if mode == "split":
+    pending = None
+    if build_lines is not None and "mols_at_build" in captured:
+        # judged by run(): the tags the residues carry when coordinates are generated must be the ones the build
+        # file selects among the residues AS THEY ARE THEN (after -split; attached ligand copies left out)
+        pending = dict(replay=replay, lines=build_lines, tags=captured["tags_at_build"],
+                       mols=[dict(name=m["name"], nodes=[n for n in m["nodes"] if n[3] is None])
+                             for m in captured["mols_at_build"]])
+    if "split" in kwargs:
         resname, *parts = kwargs["split"][0].split(":")
         asked = {p.split("-")[1]: p.split("-")[0] for p in parts}
         k = 0
@@ -957,7 +1035,7 @@ def e2e_exec(ctx, work, mode, system, kwargs, seed):
                                             "written as %s %s" % (kwargs["split"], k + 1, aname, rname, resid,
                                                                   atoms[k]["resname"], atoms[k]["atomname"]), replay)
                         k += 1
-    elif mode == "lig":
+    if "ligands" in kwargs:
         after = mols_json(topo)
         if after != captured["before"]:
             ctx.oracle_fail("ligand-round-trip", "gen_coords -lig %s: molecule list changed from %s to %s"
@@ -972,7 +1050,7 @@ def e2e_exec(ctx, work, mode, system, kwargs, seed):
                                 % (att["lig"], got, att["pos"]), replay)
             delta = [(a - b) - box[d] * round((a - b) / box[d]) for d, (a, b) in enumerate(zip(att["pos"], att["host_pos"]))]
             dist = math.sqrt(sum(x * x for x in delta))
-            step = kwargs["step_fudge"] * att["sigma"]
+            step = kwargs.get("step_fudge", 1.0) * att["sigma"]
             if abs(dist - step) > 1e-6 * max(1.0, step):
                 ctx.oracle_fail("ligand-not-one-step-from-host", "ligand %s is %.9f nm (minimum image) from its host "
                                 "residue, one step is %.9f" % (att["lig"], dist, step), replay)
@@ -982,17 +1060,43 @@ def e2e_exec(ctx, work, mode, system, kwargs, seed):
                 ctx.oracle_fail("ligand-round-trip", "ligand atom written at %s, residue built at %s"
                                 % (atoms[first]["xyz"], att["pos"]), replay)
         ctx.tally(e2e_ligands_attached=len(captured.get("attached", [])))
-    else:
-        idx = int(kwargs["start"][0].split("#")[1].split("-")[0])
-        resid = int(kwargs["start"][0].rsplit("#", 1)[1])
-        want = next(n[0] for n in mols_json(topo)[idx]["nodes"] if n[1] == resid)
+    if "start" in kwargs:
+        # the specification is read against the residues as they are when the start is looked up (after -split)
+        parsed = py_parse(kwargs["start"][0])["spec"]
+        idx = parsed[1]
+        at_build = [n for n in captured.get("mols_at_build", mols_json(topo))[idx]["nodes"] if n[3] is None]
+        want = next((n[0] for n in at_build if (parsed[2] is None or n[2] == parsed[2])
+                     and (parsed[3] is None or n[1] == parsed[3])), None)
         got = captured["start_dict"].get(idx)
         if got != want or any(v is not None for k, v in captured["start_dict"].items() if k != idx):
             ctx.oracle_fail("start-selects-other-node", "gen_coords -start %s: BuildSystem got start_dict %s"
                             % (kwargs["start"], captured["start_dict"]), replay)
     ctx.case(json.dumps(replay, sort_keys=True, default=str), stream="e2e-" + mode, ok=True,
+             e2e_options="+".join(sorted(k for k in ("build", "split", "ligands", "start") if k in kwargs)),
              sample=dict(options={k: str(v) for k, v in kwargs.items()}, molecules=system["mols"],
                          attached=captured.get("attached")) if ctx.rng.random() < 0.15 else None)
+    return pending
+
+
+def judge_e2e_tags(ctx, pending):
+    """build file + other options in one gen_coords run: what the residues carry when they are built"""
+    pending = [p for p in pending if p]
+    answers = ctx.driver.ask([dict(op="build_text", mols=p["mols"], lines=p["lines"]) for p in pending])
+    for item, ans in zip(pending, answers):
+        if not ans["ok"]:
+            ctx.tally(e2e_build_text_model_rejects=ans.get("err"))
+            continue
+        want = [[a[0], a[1], [_model_geom(g)[3] for g in a[2]], [_model_rw(d)[3] for d in a[3]]] for a in ans["spec_ann"]]
+        selected = sum(1 for a in want if a[2] or a[3])
+        ctx.tally(e2e_build_tags_selected=min(selected, 3))
+        if item["tags"] != want:
+            bad = next((g, w) for g, w in zip(item["tags"] + [None], want + [None]) if g != w)
+            ctx.oracle_fail("build-file-directive-not-on-its-residues-at-build-time",
+                            "gen_coords %s with build file\n%s\nwhen coordinates are generated residue %s carries %s, the "
+                            "build file selects %s (residues then: %s)"
+                            % ({k: v for k, v in item["replay"]["kwargs"].items() if k != "build_lines"},
+                               "\n".join(item["lines"]), bad[0][:2] if bad[0] else None, bad[0][2:] if bad[0] else None,
+                               bad[1][2:] if bad[1] else None, item["mols"]), item["replay"])
 
 
 
@@ -1338,7 +1442,8 @@ def text_exec(work, system, lines, expect=None):
 
 
 def text_case(work, rng, candidates):
-    system = gen_system(rng, ligand=rng.random() < 0.2, min_res=rng.choice([1, 2, 3]))
+    system = gen_system(rng, ligand=rng.random() < 0.2, min_res=rng.choice([1, 2, 3]),
+                        shared_resid=rng.choice([0.0, 0.0, 0.4]), restart=rng.choice([0.0, 0.5, 0.5]))
     lines, stats = gen_text(rng, system_mols(system), candidates)
     case = text_exec(work, system, lines, stats.get("expect"))
     case["stats"] = stats
@@ -1528,7 +1633,7 @@ def replay_inputs(ctx, work, inputs):
         elif stream == "lig":
             cases.append(lig_exec(work, inp["system"], inp["pairs"]))
         elif stream.startswith("e2e-"):
-            e2e_exec(ctx, work, stream[4:], inp["system"], inp["kwargs"], inp["seed"])
+            judge_e2e_tags(ctx, [e2e_exec(ctx, work, stream[4:], inp["system"], inp["kwargs"], inp["seed"])])
     run_batch(ctx, cases)
 
 
@@ -1548,7 +1653,8 @@ def run(ctx):
         "different atom-name sets)",
     ]
     ctx.assumptions.append("numbers in build files and specifications are non-negative decimal integers")
-    ctx.assumptions.append("residues of one molecule have distinct resids (standard GROMACS topologies)")
+    ctx.assumptions.append("two residues of one molecule differ in resid or in residue name (resids alone need not be "
+                           "unique: co-factors numbered like their neighbour, numbering restarting per block)")
     candidates = enabled_candidates()
     ctx.extra["explanation"] = ("candidate-finding streams enabled: %s" % (sorted(candidates) or "none"))
     rng = ctx.rng
@@ -1569,9 +1675,12 @@ def run(ctx):
         for _ in range(ctx.budget(120, 1500)):
             cases.append(lig_case(work, rng, candidates))
         run_batch(ctx, cases)
-        for mode, count in (("split", ctx.budget(12, 100)), ("lig", ctx.budget(20, 180)), ("start", ctx.budget(6, 40))):
+        pending = []
+        for mode, count in (("split", ctx.budget(12, 100)), ("lig", ctx.budget(20, 180)), ("start", ctx.budget(6, 40)),
+                            ("combo", ctx.budget(14, 120))):
             for _ in range(count):
-                e2e_case(ctx, work, rng, mode)
+                pending.append(e2e_case(ctx, work, rng, mode))
+        judge_e2e_tags(ctx, pending)
     finally:
         work.close()
 
